@@ -12,10 +12,32 @@ Local Open Scope Z_scope.
    - a both-literal comparison with an else branch (if-else, ternary);
    - len()/cap() as the test of a case in a condition-less switch;
    - a stray case;
+   - in a condition-less switch without default: a last case with an empty body whose test is an
+     error (both literals / unknown helper): the parser drops the block, the test never runs;
    - an if-ok block with the negated form (!ok) whose flag variable is not a plain name (it is
      looked up again as a path);
    - {% ctx x = "" %};
    - a lazybreak directly inside a bound tag at template / for-else level. *)
+(* items that compile to no node *)
+Definition empty_item (a : ast) : bool :=
+  match a with AText [] | AComment _ | ACase _ _ => true | _ => false end.
+Definition body_empty (body : list ast) : bool := forallb empty_item body.
+Definition is_case (a : ast) : bool := match a with ACase _ _ => true | _ => false end.
+
+(* a condition whose evaluation cannot be an error *)
+Definition quiet_cond (cnd : acond) : bool :=
+  negb (senseless cnd) && match ac_helper cnd with [] => true | h => is_lc h || cond_known h end.
+
+(* the parser leaves no node for the last case of a switch without default when its body is
+   empty, so the test of that case is never evaluated: it must not be one that is an error *)
+Fixpoint last_quiet_b (l : list ast) : bool :=
+  match l with
+  | [] => true
+  | ACase cnd body :: r =>
+    (negb (forallb (fun a => negb (is_case a)) r && body_empty body) || quiet_cond cnd) && last_quiet_b r
+  | _ :: r => last_quiet_b r
+  end.
+
 Fixpoint wf_supported (top : bool) (a : ast) : bool :=
   match a with
   | AText _ | AComment _ | APrint _ _ _ _ _ _ => true
@@ -24,13 +46,14 @@ Fixpoint wf_supported (top : bool) (a : ast) : bool :=
     negb (he && senseless c) && forallb (wf_supported false) th && forallb (wf_supported false) el
   | AIfOK _ okv _ _ neg th el _ =>
     (negb neg || simple_name okv) && forallb (wf_supported false) th && forallb (wf_supported false) el
-  | ASwitch arg cases dflt _ =>
+  | ASwitch arg cases dflt hd =>
     forallb (fun a => match a with
                       | ACase cnd body =>
                         (nonempty arg || negb (is_lc (ac_helper cnd))) && forallb (wf_supported false) body
                       | _ => true
                       end) cases
     && forallb (wf_supported false) dflt
+    && (hd || nonempty arg || last_quiet_b cases)
   | ACase _ _ => false
   | ACLoop _ _ _ _ _ _ _ _ body els he =>
     forallb (wf_supported false) body && (negb he || forallb (wf_supported true) els)
@@ -73,6 +96,84 @@ Section Main.
     intros a Hin. apply (proj1 (H a Hin)), W, Hin.
   Qed.
 
+  (* ---- the dropped last block of a switch ---- *)
+
+  Lemma compile_nil a : compile a = [] -> empty_item a = true.
+  Proof.
+    destruct a; try discriminate; try reflexivity.
+    - destruct t; [reflexivity|discriminate].
+    - cbn [compile]. destruct has_cond, lazy; discriminate.
+    - cbn [compile]. destruct has_cond; discriminate.
+  Qed.
+
+  Lemma c_list_nil : forall body, c_list compile body = [] -> body_empty body = true.
+  Proof.
+    induction body as [|a body IH]; intros H; [reflexivity|]. cbn [c_list] in H.
+    apply app_eq_nil in H. destruct H as [H1 H2]. cbn [body_empty forallb]. rewrite (compile_nil a H1). apply IH, H2.
+  Qed.
+
+  Lemma c_cases_nil cl : forall r, c_cases compile cl r = [] -> forallb (fun a => negb (is_case a)) r = true.
+  Proof. induction r as [|a r IH]; intros H; [reflexivity|]. destruct a; try (apply IH, H). discriminate H. Qed.
+
+  Lemma region_of_nil e : region_of e [] = [].
+  Proof. unfold region_of. destruct (e_jq e), (e_he e), (e_ue e); reflexivity. Qed.
+
+  Lemma empty_body_ref : forall body, forallb (wf_supported false) body = true -> body_empty body = true ->
+    forall e, seq_with re body e [] false = ([], e, SNone).
+  Proof.
+    induction body as [|a body IH]; intros W B e; [reflexivity|].
+    cbn [forallb body_empty] in W, B. apply andb_true_iff in W. apply andb_true_iff in B.
+    destruct W as [W1 W2], B as [B1 B2]. cbn [seq_with].
+    destruct a; try discriminate B1; try discriminate W1.
+    - destruct t; [|discriminate B1]. cbn [ref_eval]. rewrite region_of_nil. cbn [app]. apply IH; assumption.
+    - cbn [ref_eval app]. apply IH; assumption.
+  Qed.
+
+  Lemma quiet_cond_no_err cnd : quiet_cond cnd = true -> forall e x, ref_cond flits e cnd <> CErr x.
+  Proof.
+    unfold quiet_cond. intros Q e x E. apply andb_true_iff in Q. destruct Q as [Q1 Q2].
+    destruct (ac_helper cnd) as [|h0 h] eqn:H.
+    - destruct (ref_cond_err_cases _ _ _ _ E) as [[_ S]|[X S]]; [rewrite S in Q1; discriminate Q1|].
+      rewrite ref_cond_plain in E by exact H. unfold plain_ref in E.
+      unfold senseless in S. rewrite H in S. rewrite S in E.
+      destruct (ac_rlit cnd); [exact (cmp_path_not_err _ _ _ _ _ _ E)|].
+      destruct (ac_llit cnd); [exact (cmp_path_not_err _ _ _ _ _ _ E)|].
+      destruct (env_get _ _); [|discriminate E]. destruct (text_of _ _); [|discriminate E].
+      exact (cmp_path_not_err _ _ _ _ _ _ E).
+    - assert (NE : ac_helper cnd <> []) by (rewrite H; discriminate). rewrite <- H in Q2.
+      destruct (is_lc (ac_helper cnd)) eqn:L.
+      + rewrite ref_cond_lc in E by assumption. destruct (e_qb e); [discriminate E|].
+        unfold lc_ref in E. destruct (split_dot _); [discriminate E|]. destruct (env_find _ _); [|discriminate E].
+        destruct (leaf_len _); [discriminate E|]. destruct (en_static _); discriminate E.
+      + rewrite ref_cond_helper in E by assumption. cbn [orb] in Q2. rewrite Q2 in E.
+        destruct (env_get _ _); discriminate E.
+  Qed.
+
+  Lemma last_quiet_from_wf arg hd : forall cases,
+    forallb (fun a => match a with
+                      | ACase cnd body =>
+                        (nonempty arg || negb (is_lc (ac_helper cnd))) && forallb (wf_supported false) body
+                      | _ => true
+                      end) cases = true ->
+    (hd || nonempty arg || last_quiet_b cases) = true -> hd = false ->
+    last_quiet flits budget rlookup rinc (switch_test flits arg) (match arg with [] => false | _ => true end) cases.
+  Proof.
+    intros cases W Q ->. cbn [orb] in Q.
+    induction cases as [|a cases IH]; [exact I|].
+    cbn [forallb] in W. apply andb_true_iff in W. destruct W as [Wa Wl].
+    assert (Q' : (nonempty arg || last_quiet_b cases) = true).
+    { destruct (nonempty arg); [reflexivity|]. cbn [orb] in *. destruct a; try exact Q.
+      cbn [last_quiet_b] in Q. apply andb_true_iff in Q. exact (proj2 Q). }
+    destruct a; try (exact (IH Wl Q')). cbn [last_quiet]. split; [|exact (IH Wl Q')].
+    intros CC EB. apply andb_true_iff in Wa. destruct Wa as [_ Wb].
+    pose proof (c_list_nil body (merge_raws_nil _ EB)) as BE.
+    split; [|apply empty_body_ref; assumption].
+    destruct arg as [|a0 ar]; cbn [switch_test].
+    - cbn [nonempty orb last_quiet_b] in Q. apply andb_true_iff in Q. destruct Q as [Q1 _].
+      rewrite (c_cases_nil _ _ CC), BE in Q1. cbn [andb negb orb] in Q1. intros e x. apply quiet_cond_no_err, Q1.
+    - intros e x. apply classic_test_not_err.
+  Qed.
+
   Theorem items_refine : forall a, item_P a.
   Proof.
     apply (ast_ind' item_P); intros; (split; [intros top L W|intros cnd0 body0 E0 L0 W0; try discriminate E0]).
@@ -91,9 +192,13 @@ Section Main.
       eapply item_ok_node; [reflexivity|reflexivity|].
       apply ifok_ref; [apply all_items; assumption|apply all_items; assumption|].
       intros ->. exact W1.
-    - cbn [wf_supported] in W. apply andb_true_iff in W. destruct W as [W1 W2].
+    - cbn [wf_supported] in W. apply andb_true_iff in W. destruct W as [W W3].
+      apply andb_true_iff in W. destruct W as [W1 W2].
       eapply item_ok_node; [reflexivity|reflexivity|].
-      apply switch_ref; [|apply all_items; assumption].
+      apply switch_ref; [|apply all_items; assumption|].
+      2:{ unfold switch_tail_ok. destruct hd eqn:HD.
+          - intros ED e. apply empty_body_ref; [exact W2|]. apply c_list_nil, merge_raws_nil, ED.
+          - apply (last_quiet_from_wf arg false cases W1 W3 eq_refl). }
       clear - H W1. induction H as [|a l Ha _ IH]; [constructor|].
       cbn [forallb] in W1. apply andb_true_iff in W1. destruct W1 as [Wa Wl].
       constructor; [|apply IH, Wl]. destruct a; try exact I.
